@@ -6,7 +6,7 @@ ids = [json.loads(l)["id"] for l in open(os.path.join(HERE, "properties.jsonl"))
 
 CHECKS = {
  "C20": dict(cat="proof", ref="DESIGN.md section 4 C20",
-   technique="constant-table extraction from the type-checked AST (switch/return tables, clang constant evaluator) + exact rational comparison against embedded CODATA/IUPAC tables",
+   technique="constant tables read by folding each UnitConverter table function with its parameter bound to every enumerator (switch or if-chains, temporaries, helper methods; convert() calls resolved through the tables) and the clang-evaluated conv:: constants, compared exactly with embedded CODATA/IUPAC tables; unit-factor dataflow through the LAMMPS dump reader (each length conversion applied exactly once); element maps as data",
    text="Every conversion table entry, conv:: constant and element-table entry of the current source is extracted and "
         "compared exactly: table completeness and positivity, convert()==value(to)/value(from) (so inverse and "
         "transitivity hold identically for all 42 units), derived units == quotient of base conversions, 4-significant-"
@@ -15,7 +15,7 @@ CHECKS = {
    note="Trusted: clang constant evaluator, the embedded CODATA-2018/IUPAC reference tables. Not decided: uses of the "
         "constants at call sites other than through these tables (covered for the trajectory formats by C08)."),
  "C13": dict(cat="proof", ref="DESIGN.md section 4 C13",
-   technique="interval abstract interpretation with a symbolic bin count over the clang CFG (widening/narrowing, branch refinement) + canonical-form comparison of the binning/normalisation expressions",
+   technique="interval abstract interpretation with a symbolic bin count over the clang CFG (widening/narrowing, branch refinement, call summaries for file-local helpers) + symbolic folding of the accumulation store and its path condition, decided for one representative of every ordering of the raw bin index against 0 and N (in range / below / above, periodic and not) + congruence modulo N of the wrapped index + element-wise fold of the legacy normalisation",
    text="Every subscript of the bin arrays in HistogramNew::Process and Histogram::ProcessData is proved to lie in [0,N-1] "
         "on every CFG path for every N (symbolic), for every input value (float->index casts are unconstrained); the "
         "bin-index, step and normalisation expressions are compared in canonical form with the property's formulas; "
@@ -36,7 +36,7 @@ CHECKS = {
         "ties at exactly half a box; the geometric theorem that the sequential reduction is shortest for reduced "
         "triclinic boxes (a property of the formula, not of the code)."),
  "C05": dict(cat="other", ref="DESIGN.md section 4 C05",
-   technique="lockset/typestate dataflow over the clang CFG with predicate splitting on SynchronizeThreads() (reader mutex as ownership lock, ring vectors as token semaphores with index classes), must-precede/dominance checks for start-up and join, who-may-call over resolved callees and fields",
+   technique="symbolic folding of ProcessData and Worker::Run (file-local helpers inlined) into the ordered sequence of lock operations, reader calls, bookkeeping stores and returns with their path conditions; the protocol is decided on the operation sequence of each of the 64 assignments of the six boolean facts the conditions mention; lockset/typestate dataflow over the clang CFG for 'shared counters only under the reader mutex' and for start-up/join ordering in Run; who-may-call and worker-effect (writes through the shared application pointer) analyses over resolved callees and fields",
    text="Decides the structural core of the protocol for every interleaving: the shared reader and frame counters are only "
         "touched inside one critical section of the reader mutex; every exit of ProcessData releases it; in ordered mode each "
         "worker awaits In[id], reads, and passes In[(id+1)%n] exactly once on every path (likewise Out around MergeWorker); in "
@@ -44,10 +44,10 @@ CHECKS = {
         "before any thread starts; no application code reaches the shared reader or the protocol's members. These are "
         "necessary conditions of frame-exactly-once/in-order/no-deadlock; breaking any of them breaks the property for some schedule.",
    note="Not decided: byte-identical output across thread counts, what a subclass' MergeWorker/EvalConfiguration computes "
-        "(worker effect rule R5.7 of the design is not implemented), exception paths (EH edges off), fairness. Deadlock freedom is "
+        "exception paths (EH edges off), fairness. Deadlock freedom is "
         "argued from the verified token protocol, not model-checked."),
  "C01": dict(cat="proof", ref="DESIGN.md section 4 C01",
-   technique="def-use folding of BeadMap::Apply into canonical sum/guard terms with intercepted BCShortestConnection calls (dataflow identity), CFG must-pass-through for the half-box guard, ordering/dominance for box propagation, AST checks of weight normalisation",
+   technique="def-use folding of BeadMap::Apply into canonical sum/guard terms with intercepted BCShortestConnection calls (dataflow identity), element-wise folding of Map_Sphere::Initialize (what AddElem receives for a generic sub-bead, helpers inlined), CFG must-pass-through for the half-box guard, ordering/dominance for box propagation, definition tables of cgmoleculedef",
    text="For every BeadMap::Apply override the value reaching setPos/setVel/setF/setMass is shown to be exactly the "
         "weighted sum of the property (positions only through BC(r0,pos)+r0 with r0 the first parent, velocity with weight_, "
         "force with force_weight_=d/w), for every frame and box because it is an identity of the folded dataflow; the "
@@ -55,7 +55,7 @@ CHECKS = {
         "map runs; Initialize normalises w and d, stores d_i/w_i and throws on the stated inconsistencies.",
    note="Obligations are structural/algebraic identities of the current source; holding implies the invariance clauses "
         "(whole-box-vector displacement of non-first parents, rigid translation) given C02. Not decided: floating-point "
-        "rounding, creation of the CG topology (cgmoleculedef/cgengine tables, R1.6 of the design), csg_map's format pairs (C08)."),
+        "rounding, the parts of CG topology creation outside the definition tables of R1.6, csg_map's format pairs (C08)."),
  "C07": dict(cat="proof", ref="DESIGN.md section 4 C07",
    technique="symbolic folding of value and derivative code from the AST + formal differentiation (chain rule, norm atoms with N^2=v.v) + exact polynomial identity decision (coefficient-wise at random rational points, and full symbolic expansion where it terminates)",
    text="For bond, angle and dihedral the formal gradient of the folded EvaluateVar equals the folded Grad for every bead and "
@@ -68,7 +68,7 @@ CHECKS = {
         "tier additionally by symbolic expansion under a time budget. Trusted: clang front end, sympy polynomial arithmetic. Not "
         "decided: singular geometries, getInterval at knots, floating-point error of the compiled code."),
  "C12": dict(cat="proof", ref="DESIGN.md section 4 C12",
-   technique="symbolic folding of spline coefficient code + exact polynomial identities (interpolation, C1 rows, curvature, boundary rows, Akima piece conditions), AST/CFG checks of grid pinning, smoothing stencil, resample plumbing",
+   technique="symbolic folding of spline coefficient code + exact polynomial identities (interpolation, C1 rows reconstructed from the matrix/right-hand-side stores by their folded indices, curvature, boundary rows per boundary kind, Akima piece conditions, linear-fit rows: partition of unity and linear precision), AST/CFG checks of grid pinning, smoothing stencil, resample plumbing",
    text="Decides the closed-form clauses for every grid and data set: linear pieces pass through both knots; cubic basis "
         "functions interpolate, f2 is the curvature, the one-sided slope coefficients are the derivatives from the left/right "
         "interval and the rows built in Interpolate/AddBCToFitMatrix are exactly the C1 conditions (so the first derivative is "
@@ -87,7 +87,7 @@ CHECKS = {
         "code's field tables. Not decided: printed precision versus tolerance, bead names/types, multi-frame ordering, xml "
         "topology reader. Known findings (listed, exit 0): Table error column not restored; PDB writer emits no CRYST1."),
  "C03": dict(cat="other", ref="DESIGN.md section 4 C03",
-   technique="CFG required-edge / dominance analysis of the four search kernels with predicate splitting on do_exclusions_, def-use resolution of the compared distances to BCShortestConnection calls, interval analysis of the cell index with symbolic N, canonical-form comparison of the grid set-up, sibling agreement",
+   technique="CFG required-edge / dominance analysis of the four search kernels with predicate splitting on do_exclusions_ (file-local wrappers of the exclusion test recognised by their folded truth table), def-use resolution of the compared distances to BCShortestConnection calls, interval analysis of the cell index with symbolic cell counts (helper summaries) + congruence of the folded cell index to floor(r.norm) modulo the cell count, folded start value of the inner iterator of the simple search",
    text="Necessary conditions decided for all configurations: in every kernel an insertion is reachable only through cutoff-true, "
         "exclusion-false (when enabled), callback-true and not-yet-stored edges, in that dominance order and on the same beads; "
         "each tested distance is the minimum-image distance of two distinct beads of the tuple (strict <) and the stored vectors "
@@ -97,7 +97,7 @@ CHECKS = {
    note="Not decided (needs execution/geometry): completeness of the cell scan for all cell counts and triclinic shapes, "
         "exactly-once delivery across cells, construction of exclusions from bonded interactions."),
  "C04": dict(cat="proof", ref="DESIGN.md section 4 C04",
-   technique="symbolic folding of the merge / normalisation / covariance code and exact comparison with the property's formulas; accumulator-reset completeness (sibling set inclusion); call-order and dominance checks for block output and per-frame clearing",
+   technique="symbolic folding of the merge / normalisation / covariance code (matrix expressions as non-commutative terms, helpers inlined, reference parameters written back) and exact comparison with the property's formulas; accumulator-reset completeness (sibling set inclusion); block output decided by a truth table over (block length zero, block complete); per-frame clearing by dominance",
    text="Decides for every trajectory: frame averages are ((n-1)avg+cur)/n with the incremented frame count (distributions, forces, "
         "correlation blocks, box volume); the two-body output is V norm n(r)/(4/3 pi (x2^3-x1^3)) with the exact shell volume and "
         "CalcDeltaS applies its exact inverse to the target; bonded/three-body outputs are normalised to unit integral; the IMC block is "
@@ -106,7 +106,7 @@ CHECKS = {
    note="Identities of formulas in the current source. Not decided: agreement with an independent recomputation on data, the pair "
         "search (C03), bin memory safety (C13), the norm_ factors set in BeginEvaluate (2/(N1N2) vs 1/(N1N2))."),
  "C06": dict(cat="other", ref="DESIGN.md section 4 C06",
-   technique="ordered factor-chain matching of the non-commutative matrix products on the AST, guarded-store extraction for the regularised inverse spectrum, canonical-form comparison of all row/index expressions, call-sequence checks at block boundaries, shared spline-constraint identities",
+   technique="symbolic folding of csg_imc_solve into a non-commutative matrix term (-V diag(d) V^T A^T b with V, d from the eigen-decomposition of A^T A) with the diagonal decided element-wise for representatives of |lambda+reg| against the tolerance; canonical-form comparison of all csg_fmatch row/index expressions, call-sequence checks at block boundaries, structural check of the constrained QR solve, cubic-spline row identities shared with C12",
    text="Decides the shape of the stated problems: csg_imc_solve forms A^T A, inverts its spectrum shifted by the regularisation "
         "(pseudo-inverse below tolerance), assembles V diag V^T and returns -inverse A^T b, split by 1-based index ranges; the matrix "
         "file is read back with the layout it was written; every csg_fmatch contribution lands in the row of its own force "
@@ -116,7 +116,7 @@ CHECKS = {
    note="Necessary structural conditions; holding does not establish numerical accuracy or that fmatch reproduces representable force "
         "functions on data (needs execution). Trusted: Eigen decompositions."),
  "C18": dict(cat="other", ref="DESIGN.md section 4 C18",
-   technique="CFG required-edge analysis (zero stride reaches a throw before the store), canonical-form comparison of the validity predicate with the iterator's end test (sibling/contradiction rule), printer-vs-parser grammar tables from folded stream items and guarded stores, AST checks of std::set normalisation and of the selection decision table",
+   technique="symbolic folding of RangeParser::ParseBlock and iterator::operator++ (same-class methods and file-local helpers inlined, C++ integer division modelled) decided on representative token triples / iterator states for every ordering that matters (sign of the stride, begin*stride vs end*stride, zero stride, token counts); printer-vs-parser grammar tables from folded stream items; std::set normalisation and wildcmp restart rules on AST/CFG",
    text="Decides: every range block that ParseBlock stores has a non-zero stride and satisfies begin*stride <= end*stride, and the iterator "
         "leaves a block by exactly the complementary sign-aware test (so every accepted expression terminates and descending ranges are "
         "enumerated); the printer's forms b, b:e, b:s:e and the ',' separator are what the parser's token roles read back; index "
@@ -125,7 +125,7 @@ CHECKS = {
    note="Not decided: that tools::wildcmp implements glob semantics for all pattern/string pairs (a back-tracking matcher; would need "
         "exhaustive comparison with a reference matcher - not static analysis), std::stoi's rejection of malformed numbers."),
  "C11": dict(cat="other", ref="DESIGN.md section 4 C11",
-   technique="dominance/must-pass-through over the pipeline's CFG, AST guard tables, data lint of all shipped option XML files against type heads and choice syntax extracted from the validator's code, taint rule (values reach the XML stream only through an escaping function), reachability rule for the list-merge template copy",
+   technique="dominance/must-pass-through over the pipeline's CFG, guards of CheckRequired / RemoveOptional / InjectDefaultsAsValues as truth tables over (has default, injected, keyword, has children) on the folded code, data lint of all shipped option XML files against type heads and choice syntax extracted from the validator's code, taint rule (values reach the XML stream only escaped), unconditional-append rule for the expat character-data callback",
    text="Decides: ProcessUserInput runs all seven stages once on every path in the required order on one tree; undeclared options, "
         "missing REQUIRED options and OPTIONAL leftovers are handled by guards that use the reserved keywords consistently; extra list "
         "elements are copies of the pristine default element (no leakage between list entries); every one of the shipped option "
@@ -134,7 +134,7 @@ CHECKS = {
    note="Not decided: the complete merge semantics on arbitrary user trees, expat's behaviour, numeric lexical_cast details. The lint "
         "covers xtp/share/xtp/xml and its sub-packages (csg_defaults.xml.in is a template without choices attributes)."),
  "C10": dict(cat="other", ref="DESIGN.md section 4 C10",
-   technique="lock-counter dataflow over the CFGs of the ProgObserver<std::vector<Job>> instantiation (thread mutex, file-lock bracket with wrapper bodies resolved to boost file_lock::lock/unlock), dominance checks for backup-before-rewrite and the assignment steps, guard extraction for the merge rule, who-may-call",
+   technique="lock-counter dataflow over the CFGs of the ProgObserver<std::vector<Job>> instantiation (thread mutex, file-lock bracket with wrapper bodies resolved to boost file_lock::lock/unlock, lock on the owned descriptor), dominance checks for backup-before-rewrite, who-may-call; the merge rule of UPDATE_JOBS and the assignment loop of SyncWithProgFile as decision tables over every condition on the folded path (exits included)",
    text="Decides the protocol shape for every schedule and process count: observer state is only touched under lockThread_ and the "
         "mutex is released on every exit; every read/write of the job file and every job assignment lies inside LockProgFile/"
         "ReleaseProgFile, which take and release the EXCLUSIVE inter-process lock; the merged list is written to the backup before "
@@ -144,7 +144,7 @@ CHECKS = {
    note="xtp is not built here: units are parsed with synthesised flags (stated assumption). Not decided: behaviour at real crash "
         "points, boost::interprocess semantics, exception paths."),
  "C09": dict(cat="other", ref="DESIGN.md section 4 C09",
-   technique="who-may-write analysis of the status field, CFG required-edge check tying the Success path to checkConvergence's un-negated result, must-assign dataflow with helper summaries over the instantiated solve template, AST shape of the convergence predicate, option literals versus the shipped option description",
+   technique="who-may-write analysis of the status field, CFG required-edge check tying the Success path to checkConvergence's un-negated result, must-assign dataflow with helper summaries over the instantiated solve template, decision table for the zeroing of unconverged roots",
    text="Decides only the status-honesty clause: Success can be written solely by storeConvergedData, which solve reaches only when "
         "checkConvergence returned true; that predicate is 'all requested residual norms < tol_'; every run of solve assigns the status "
         "before it can return, so a reused solver cannot report a stale Success; unconverged roots are zeroed and reported as "
@@ -153,7 +153,7 @@ CHECKS = {
         "bounds, convergence for diagonally dominant matrices, the Hamiltonian mode. Those are numerical and outside static analysis. "
         "xtp is not built here; units parsed with synthesised flags."),
  "C14": dict(cat="proof", ref="DESIGN.md section 4 C14",
-   technique="symbolic folding of Marcusrate / Rate / InitEscapeRate / Promotetime with exact algebraic identities (detailed balance, linearity, positivity); AST decision tables; orientation agreement between tree construction, probability shifting, descent and leaf choice",
+   technique="symbolic folding of Marcusrate / Rate / InitEscapeRate / Promotetime with exact algebraic identities (detailed balance, linearity, positivity); the driving force per carrier kind by cases; the selection-tree normaliser must be independent of the state before makeTree; orientation agreement between tree construction, probability shifting and lookup",
    text="Decides the closed-form clauses for all pairs, temperatures and fields: the Marcus expression satisfies k(dG)/k(-dG) = exp(dG/kT) "
         "for equal reorganisation energies, is linear in J^2 and positive; Rate() feeds +dG/-dG with the same coupling, the charge "
         "table and the q R.F term, and the reverse event uses -R; the escape rate is the sum of event rates from zero; the waiting "
@@ -163,7 +163,7 @@ CHECKS = {
         "construction), uniformity of the random numbers, the physical sign convention of the field term (the code's dG = (E1-E2) + q R.F "
         "is taken as the definition). xtp is parsed, not built."),
  "C17": dict(cat="other", ref="DESIGN.md section 4 C17",
-   technique="enumerator-to-open-mode table from the constructor's switch, CFG required-edge for the read-only guard, sibling agreement of writer/reader overload kinds and of the matrix hyperslab parameters, try/catch shape of every public operator(), handler-effect rule for names that already exist",
+   technique="enumerator-to-open-mode table from the constructor's switch, CFG required-edge for the read-only guard, sibling agreement of writer/reader overload kinds and of the matrix hyperslab parameters, try/catch shape of every public operator(), overwrite rule followed through helpers (what runs when creation throws: handler + fall-through must unlink and re-create)",
    text="Decides the structural clauses: access levels map to the right HDF5 modes and a read-only file cannot hand out a writer; every "
         "value kind the writer stores has a reader; the matrix writer and reader use identical hyperslab selections and transfer "
         "spaces (so the stored layout is the read layout for every shape); reading a missing name or any HDF5 failure becomes a thrown "
@@ -171,7 +171,7 @@ CHECKS = {
    note="Not decided: HDF5's behaviour, bit-identity of the transferred values, non-ASCII strings, the table-row (checkpointtable.h) path. "
         "xtp is parsed, not built; the overwrite defect was replayed with a stand-alone harness (replays/C17_overwrite.cc) and fixed."),
  "C19": dict(cat="other", ref="DESIGN.md section 4 C19",
-   technique="Perl compiler op-tree (perl -MO=Concise, compile phase only) parsed into expression trees; every assignment folded to a symbolic value with its cond_expr/and/or guards and compared with the documented formula; array pass-through of readin_table/saveto_table arguments",
+   technique="Perl compiler op-tree (perl -MO=Concise, compile phase only) folded by a Perl counterpart of the C++ folding engine: scalars through their definitions (ite terms, user subs inlined through @_), array writes as events with path conditions (if/elsif/unless/statement modifiers/next); every documented point-wise formula is decided per scenario of the predicates the write depends on; loop ranges and directions; array pass-through of the grid/flag arrays",
    text="Decides the point-wise formulas of update_ibi_pot.pl (kT ln(g_cur/g_tgt) under both-positive guard, continuation with flag o, both "
         "sweeps alike), dist_boltzmann_invert.pl (-kT ln(P/norm), norm table), table_linearop.pl, potential_shift.pl (shift value: last point "
         "or minimum over flagged points with a defined()-test), table_smooth.pl (stencils, flag guard, unflagged points kept) and "
@@ -179,7 +179,7 @@ CHECKS = {
    note="Not decided: shell wrappers (csg_table, csg_call), table_combine/table_scale/table_extrapolate, csg_resample-based differentiation and "
         "its inverse relation to integration (numerical), CsgFunctions.pm's parsing loops. No script is executed; perl only compiles them."),
  "C15": dict(cat="other", ref="DESIGN.md section 4 C15",
-   technique="symbolic folding of eeInteractor::FillTholeInteraction with the inter-site distance as a positive atom (R^2 = |posB-posA|^2) and exact identities; AST check of the monopole factor",
+   technique="symbolic folding of eeInteractor::FillTholeInteraction (helpers and std::pair results inlined) with the inter-site distance as a positive atom and exact identities read off the folded tensor; rank gating of VSiteA<N>: every (rank a of A) x (rank b of B) block is accumulated exactly once for every instantiation and every rank of B",
    text="THIN partial claim: decides only the last clause of the property - the damped dipole-dipole interaction tensor is -3 l5 a a^T + l3 I "
         "over the unit vector, hence symmetric; in the undamped branch l3 = l5 = R^-3 and the tensor is traceless; the damping factors "
         "are (1-e^-u) and (1-(1+u)e^-u) so the tensor tends to the undamped one at large separation - and that the monopole entry is q/R.",
